@@ -152,6 +152,9 @@ def raw_of(k, i, leaf_bits):
 def replay_batch(cases, leaf_bits, nsig, want_tb=True, vals=None):
     """cases: list of (prog, exp_w, exp_s, exp_vals) ; exp_vals indexed by valuation 1..NV (or the subset `vals`).
     Returns list of mismatch dicts."""
+    import warnings
+    # (an Array position that cannot be written in the index's shape is announced by a SyntaxWarning: it is generated on purpose)
+    warnings.filterwarnings("ignore", message=".*is not representable in match value shape.*", category=SyntaxWarning)
     leaves = Leaves()
     mism = []
     m = Module()
